@@ -168,7 +168,7 @@ fn c02_bigbed_section_layout() {
 // @timeout 1800
 // @mem 24
 // @functions bigbedwrite::process_val (coverage-depth sweep `add_interval_to_summary`), two consecutive calls from the empty per-chromosome state
-// @bounds 2 entries (the second is the last of the chromosome), coordinates in 0..=12, start-sorted, any overlap relation (disjoint, touching, partially overlapping, nested, identical, zero-length); items_per_slot 4
+// @bounds 2 entries with coordinates in 0..=12, start-sorted, any overlap relation (disjoint, touching, partially overlapping, nested, identical, zero-length), followed by a third entry whose start ns (symbolic, s1..=12) cuts the sweep: the summary must then hold exactly the statistics of the bases below ns; items_per_slot 4
 // @stubs tokio Handle::spawn -> counted/discarded; mpsc Sender -> always-ready log; alloc::fmt::format -> empty; index_list::IndexList -> 4-slot sequence model (support.rs ilist) by one source substitution of the `use` line
 // @sub src/bbi/bigbedwrite.rs ::: use index_list::IndexList; ::: use crate::verif_support::ilist::IndexList;
 // @cut cross-chromosome accumulation; more than 2 entries; coordinates > 12 (the sweep compares and subtracts coordinates only)
@@ -195,7 +195,10 @@ fn c06_bigbed_depth_sweep() {
     let r0 = poll_once(process_val(entry(s0, e0), Some(&second), 100, &chrom, &mut summary, &mut items, &mut overlap, &options, handle, &mut env.tx, 7));
     let ok0 = match &r0 { Some(Ok(())) => true, _ => false };
     core::mem::forget(r0);
-    let r1 = poll_once(process_val(entry(s1, e1), None, 100, &chrom, &mut summary, &mut items, &mut overlap, &options, handle, &mut env.tx, 7));
+    let ns: u32 = kani::any();
+    kani::assume(ns >= s1 && ns <= 12);
+    let third = entry(ns, 12);
+    let r1 = poll_once(process_val(entry(s1, e1), Some(&third), 100, &chrom, &mut summary, &mut items, &mut overlap, &options, handle, &mut env.tx, 7));
     let ok1 = match &r1 { Some(Ok(())) => true, _ => false };
     core::mem::forget(r1);
     assert!(ok0 && ok1, "[accepted] valid entries refused");
@@ -207,7 +210,7 @@ fn c06_bigbed_depth_sweep() {
     let mut mx: u64 = 0;
     let mut x: u32 = 0;
     while x < 12 {
-        let d = ((s0 <= x && x < e0) as u64) + ((s1 <= x && x < e1) as u64);
+        let d = if x < ns { ((s0 <= x && x < e0) as u64) + ((s1 <= x && x < e1) as u64) } else { 0 };
         if d > 0 {
             bases += 1;
             sum += d;
@@ -236,8 +239,11 @@ fn c06_bigbed_depth_sweep() {
     kani::cover!(c2, "nested");
     let c3 = (e0 < s1) & (s0 < e0) & (s1 < e1);
     kani::cover!(c3, "disjoint");
+    let c4 = (ns > s1) & (ns < e0) & (ns < e1) & (e0 != e1);
+    kani::cover!(c4, "third entry starts inside the overlap of the first two");
     core::mem::forget(items);
     core::mem::forget(overlap);
+    core::mem::forget(third);
     core::mem::forget(second);
     core::mem::forget(chrom);
 }
@@ -268,16 +274,16 @@ fn depth_stats(lo: u32, hi: u32, s0: u32, e0: u32, s1: u32, e1: u32) -> (u64, u6
 
 // @harness c08_bigbed_zoom_two_entries
 // @props C08
-// @tier off
-// @kind core
-// @timeout 2400
-// @mem 32
+// @tier thorough
+// @kind stretch
+// @timeout 5400
+// @mem 40
 // @functions bigbedwrite::process_val_zoom (coverage sweep + tiling into zoom records), two consecutive calls from the empty per-chromosome state, one zoom level
 // @bounds 2 entries with coordinates in 0..=7, start-sorted, any overlap relation; a third entry to the right (start 9) keeps the chromosome open; resolution 3; items_per_slot 8 (no mid-way flush)
 // @stubs tokio Handle::spawn -> counted/discarded; mpsc Sender -> always-ready log; Vec::push -> push within capacity (asserted); index_list::IndexList -> 4-slot sequence model by one source substitution of the `use` line; mpsc Sender::poll_ready/start_send -> always-ready log. (The await points inside the sweep loops make the coroutine lowering merge the nested loop heads, so the single unwinding bound of 24 is a budget for the TOTAL number of sweep/tiling iterations of one call; removing the awaits by substitution un-merges the loops and the nested unwinding ran out of memory)
 // @sub src/bbi/bigbedwrite.rs ::: use index_list::IndexList; ::: use crate::verif_support::ilist::IndexList; ||| src/bbi/bigbedwrite.rs ::: zoom_item.channel.send(handle).await.expect("Couln't send"); ::: crate::verif_support::env::direct_send(&mut zoom_item.channel, handle); ::: 2
 // @cut end-of-chromosome flush (see c08_bigbed_zoom_last); more than 2 entries; other resolutions; f32 narrowing (c09_zoom_section_layout)
-// @witness cover: partially overlapping entries; a gap longer than the resolution; nested entries
+// @witness cover: partially overlapping entries; a gap of at least the resolution; nested entries
 #[kani::proof]
 #[kani::unwind(6)]
 #[kani::stub(tokio::runtime::Handle::spawn, fake_spawn_skip)]
@@ -337,8 +343,8 @@ fn c08_bigbed_zoom_two_entries() {
     assert!(got_bases == tot_bases, "[exactly_once] every covered base must lie in exactly one record");
     let c1 = (s0 < s1) & (s1 < e0) & (e0 < e1);
     kani::cover!(c1, "partially overlapping");
-    let c2 = (e0 < s1) & (s1 - e0 > 3) & (s0 < e0) & (s1 < e1);
-    kani::cover!(c2, "gap longer than the resolution");
+    let c2 = (e0 < s1) & (s1.wrapping_sub(e0) >= 3) & (s0 < e0) & (s1 < e1);
+    kani::cover!(c2, "gap of at least the resolution");
     let c3 = (s0 < s1) & (e1 < e0) & (s1 < e1);
     kani::cover!(c3, "nested");
     core::mem::forget(zoom_items);
@@ -395,4 +401,136 @@ fn c02_bigbed_item_count() {
     kani::cover!(c1, "zero-length entry");
     core::mem::forget(second);
     core::mem::forget(third);
+}
+
+fn depth2_at(x: u32, a0: u32, a1: u32, a2: u32, d1: u64, d2: u64, np: u8, is: u32, ie: u32) -> u64 {
+    let base = if np >= 1 && a0 <= x && x < a1 { d1 } else if np >= 2 && a1 <= x && x < a2 { d2 } else { 0 };
+    base + ((is <= x && x < ie) as u64)
+}
+/// (covered bases, sum, sum of squares, min, max) of the post-step depth over [lo,hi) within 0..8
+fn depth2_stats(lo: u32, hi: u32, a0: u32, a1: u32, a2: u32, d1: u64, d2: u64, np: u8, is: u32, ie: u32) -> (u64, u64, u64, u64, u64) {
+    let (mut b, mut sm, mut sq, mut mn, mut mx): (u64, u64, u64, u64, u64) = (0, 0, 0, 99, 0);
+    macro_rules! at {
+        ($x:expr) => {
+            if lo <= $x && $x < hi {
+                let d = depth2_at($x, a0, a1, a2, d1, d2, np, is, ie);
+                if d > 0 {
+                    b += 1; sm += d; sq += d * d;
+                    if d < mn { mn = d; }
+                    if d > mx { mx = d; }
+                }
+            }
+        };
+    }
+    at!(0); at!(1); at!(2); at!(3); at!(4); at!(5); at!(6); at!(7);
+    (b, sm, sq, mn, mx)
+}
+
+// @harness c08_bigbed_zoom_step
+// @props C08
+// @tier off
+// @kind core
+// @timeout 3600
+// @mem 40
+// @functions bigbedwrite::process_val_zoom (coverage sweep + tiling into zoom records): ONE call from an ARBITRARY valid per-level state
+// @bounds pre-state: tracked coverage = 0..=2 contiguous pieces starting at the entry's start with strictly decreasing positive depths (what the sweep leaves behind), live zoom record absent or any record satisfying the invariant (ends at or before the entry's start, shorter than the resolution, 1..=len covered bases, depth statistics 1..=3); entry [is,ie) with is <= 4, all coordinates <= 7; the next entry starts at 12 (everything is swept); resolution 3; items_per_slot 8
+// @assumes representation invariant as stated; depths <= 3
+// @stubs tokio Handle::spawn -> counted/discarded (asserted not to happen); the two channel hand-offs `zoom_item.channel.send(handle).await.expect(..)` -> `direct_send(..)` by source substitution (with the await points left in, the coroutine lowering merges the nested loop heads and no unwinding budget up to 24 sufficed); Vec::push -> within capacity (asserted); index_list::IndexList -> 4-slot sequence model by one source substitution of the `use` line
+// @sub src/bbi/bigbedwrite.rs ::: use index_list::IndexList; ::: use crate::verif_support::ilist::IndexList; ||| src/bbi/bigbedwrite.rs ::: zoom_item.channel.send(handle).await.expect("Couln't send"); ::: crate::verif_support::env::direct_send(&mut zoom_item.channel, handle); ::: 2
+// @cut end-of-chromosome flush; other resolutions; more than 2 tracked pieces; f32 narrowing (c09_zoom_section_layout)
+// @witness cover: entry nested in the first tracked piece; entry reaching past all tracked pieces; a live record that is continued
+#[kani::proof]
+#[kani::unwind(6)]
+#[kani::stub(tokio::runtime::Handle::spawn, fake_spawn_skip)]
+#[kani::stub(alloc::vec::Vec::push, push_within_capacity)]
+fn c08_bigbed_zoom_step() {
+    let size: u32 = 3;
+    let (is, ie): (u32, u32) = (kani::any(), kani::any());
+    kani::assume(is <= ie && is <= 4 && ie <= 7);
+    // tracked pieces
+    let np: u8 = kani::any();
+    kani::assume(np <= 2);
+    let (a1, a2): (u32, u32) = (kani::any(), kani::any());
+    let (d1, d2): (u8, u8) = (kani::any(), kani::any());
+    let a0 = is;
+    if np >= 1 { kani::assume(a0 < a1 && a1 <= 7 && d1 >= 1 && d1 <= 3); }
+    if np >= 2 { kani::assume(a1 < a2 && a2 <= 7 && d2 >= 1 && d2 < d1); }
+    // live record
+    let has_live: bool = kani::any();
+    let (ls, le): (u32, u32) = (kani::any(), kani::any());
+    let (lb, lmin, lmax, lsum, lsq): (u8, u8, u8, u8, u8) = (kani::any(), kani::any(), kani::any(), kani::any(), kani::any());
+    if has_live {
+        kani::assume(ls < le && le - ls < size && le <= is);
+        kani::assume(lb >= 1 && (lb as u32) <= le - ls && lmin >= 1 && lmin <= lmax && lmax <= 3 && lsum <= 9 && lsq <= 27);
+    }
+    let mut overlap: IndexList<Value> = IndexList::new();
+    if np >= 1 { overlap.insert_last(Value { start: a0, end: a1, value: d1 as f32 }); }
+    if np >= 2 { overlap.insert_last(Value { start: a1, end: a2, value: d2 as f32 }); }
+    let live = if has_live {
+        Some((ZoomRecord { chrom: 7, start: ls, end: le, summary: Summary { total_items: 0, bases_covered: lb as u64, min_val: lmin as f64, max_val: lmax as f64, sum: lsum as f64, sum_squares: lsq as f64 } }, 1u64))
+    } else {
+        None
+    };
+    let mut env = Env::new();
+    let (ztx, zrx) = futures::channel::mpsc::channel::<Msg>(4);
+    core::mem::forget(zrx);
+    let mut zoom_items = Vec::with_capacity(1);
+    zoom_items.push(ZoomItem { size, live_info: live, overlap, records: Vec::with_capacity(8), channel: ztx });
+    let mut options = BBIWriteOptions::default();
+    options.items_per_slot = 8;
+    options.compress = false;
+    let handle: &tokio::runtime::Handle = env.handle();
+    let far = entry(12, 13);
+    let r = poll_once(process_val_zoom(&mut zoom_items, &options, is, ie, Some(&far), handle, 7));
+    let okr = match &r { Some(Ok(())) => true, _ => false };
+    core::mem::forget(r);
+    assert!(okr, "[total] process_val_zoom failed or suspended");
+    assert!(env.spawned() == 0, "[no_flush] nothing may be flushed before the slot is full or the chromosome ends");
+    let zi = &zoom_items[0];
+    assert!(zi.overlap.len() == 0, "[swept] coverage left of the next entry must be fully swept into records");
+    let n = zi.records.len();
+    assert!(n <= 4, "[count] more records than 8 bases at resolution 3 can need");
+    let (d1u, d2u) = (d1 as u64, d2 as u64);
+    let (tot, _, _, _, _) = depth2_stats(is, 8, a0, a1, a2, d1u, d2u, np, is, ie);
+    let mut got: u64 = 0;
+    let mut prev_end: u32 = 0;
+    let mut first = true;
+    let mut i = 0;
+    while i <= n {
+        let rec: Option<ZoomRecord> = if i < n { Some(zi.records[i]) } else { zi.live_info.map(|l| l.0) };
+        if let Some(rec) = rec {
+            assert!(rec.start < rec.end && rec.end <= 8, "[nonempty] empty or out-of-range zoom record");
+            assert!(rec.end - rec.start <= size, "[resolution] record longer than the level's resolution");
+            assert!(first || rec.start >= prev_end, "[order] records overlap or are out of order");
+            let cont = first && has_live;
+            if cont {
+                assert!(rec.start == ls, "[continue] the live record must be continued, not restarted");
+            } else {
+                assert!(rec.start >= is, "[gap] a record starts before the data it summarises");
+            }
+            let lo = if rec.start > is { rec.start } else { is };
+            let (b, sm, sq, mn, mx) = depth2_stats(lo, rec.end, a0, a1, a2, d1u, d2u, np, is, ie);
+            let (cb, cs, cq) = if cont { (lb as u64, lsum as u64, lsq as u64) } else { (0, 0, 0) };
+            assert!(rec.summary.bases_covered == cb + b, "[bases] a record's covered-base count differs from the covered bases in its span");
+            assert!(cont || b > 0, "[useless] a new record without any covered base");
+            assert!(rec.summary.sum == (cs + sm) as f64, "[sum] a record's sum differs from the depth inside its span");
+            assert!(rec.summary.sum_squares == (cq + sq) as f64, "[sumsq] sum of squares");
+            let wmin = if cont && (b == 0 || (lmin as u64) < mn) { lmin as u64 } else { mn };
+            let wmax = if cont && (b == 0 || (lmax as u64) > mx) { lmax as u64 } else { mx };
+            assert!(rec.summary.min_val == wmin as f64 && rec.summary.max_val == wmax as f64, "[minmax] min/max depth differ from the depth inside the record's span");
+            got += b;
+            prev_end = rec.end;
+            first = false;
+        }
+        i += 1;
+    }
+    assert!(got == tot, "[exactly_once] every covered base must lie in exactly one record");
+    let c1 = (np >= 1) & (ie < a1) & (is < ie);
+    kani::cover!(c1, "entry nested in the first tracked piece");
+    let c2 = (np >= 1) & (ie > a1) & ((np < 2) | (ie > a2));
+    kani::cover!(c2, "entry reaching past all tracked pieces");
+    let c3 = has_live & (is == le) & (is < ie);
+    kani::cover!(c3, "live record continued");
+    core::mem::forget(zoom_items);
+    core::mem::forget(far);
 }
